@@ -73,7 +73,7 @@ def _array(rng):
 
 
 def symexpr(rng, params):
-    names = rng.sample(["a", "ab", "abc", "beta", "bet", "p", "par", "x", "e", "theta", "y", "var", "res", "val", "lambda", "is", "E", "I", "S", "N", "oo", "rhs", "np"], rng.randint(1, 3))
+    names = rng.sample(["a", "ab", "abc", "beta", "bet", "p", "par", "x", "e", "theta", "y", "var", "res", "val", "lambda", "is", "E", "I", "S", "N", "oo", "rhs", "np", "q0_phase", "q1r", "q10b", "q", "qq2"], rng.randint(1, 3))
     syms = [sym.Symbol(n) for n in names]
     e = 0
     for s in syms:
